@@ -25,6 +25,12 @@ CHECKS = {
         text="For every length 0..64 x 4 modes x default/set IV (plus padding look-alike plaintexts, plus lengths 65..1024: all in thorough, seeded sample in quick) TLC computes the standard ciphertext; the real helper must return it with and without spare capacity behind the input, leave input, key and spare bytes untouched, and decrypt the specification's ciphertext to the plaintext; SetIV histories are validated by a TLC trace spec that tracks which IV is current.",
         note="Trusts TLC + Bitwise and SM4.tla (GM/T 0002 example); one key; plaintext contents from three deterministic families.",
         ref="DESIGN.md section 5 C11"),
+    "C12": dict(
+        level="exploration",
+        technique="executable TLA+ transcription of SP 800-38D GCM over SM4.tla (GF(2^128) multiplication, J0, inc32, GCTR, GHASH) evaluated by TLC as a table spec; each case replayed on sm4.Sm4GCM, on crypto/cipher GCM over sm4.NewCipher (the TLS suites' construction) and under exhaustive single-bit tampering",
+        text="TLC computes ciphertext and tag for (IV length 1..64 incl. all-0xff IVs and an IV it constructs so that the 32-bit counter wraps) x (AAD, plaintext) lengths 0..80 (all pairs in thorough, boundary grid + seeded sample in quick); the helper must return exactly these, decrypt the specification's ciphertext to exactly the plaintext, agree with the standard library GCM over the same block cipher, leave caller memory untouched, and change the recomputed tag under every single-bit change of IV, AAD and ciphertext.",
+        note="Exploration over enumerated lengths and three content families; trusts TLC + Bitwise and SM4.tla. GCM.tla itself is cross-checked on every case against crypto/cipher's GCM over the real block cipher.",
+        ref="DESIGN.md section 5 C12"),
     "C19": dict(
         level="model_checking",
         technique="TLA+ spec PadStream + refinement PadStreamImpl checked by TLC; TLC-generated environments replayed on the real objects; recorded traces validated by TLC (PadStreamTrace)",
